@@ -254,7 +254,10 @@ func c10Builder(c *Ctx, fn *ssa.Function, copySites []ssa.Instruction) {
 		if IsNilConst(r.Results[0]) {
 			continue
 		}
-		ok, path := Guarded(fn.Blocks[0], r, cut, nil)
+		nArr, ok, path := GuardedArrivals(fn, r, 0, func(v ssa.Value) bool { return !IsNilConst(v) }, cut, nil)
+		if nArr == 0 {
+			continue
+		}
 		c.Check(ok && nA > 0 && nB > 0, "R2", FnName(fn)+":https-to-http", p.InstrPos(r), "a redirected request is returned only when it is not https→http",
 			"a redirected request can be returned although the original was https and the new one is http: "+path)
 	}
